@@ -367,10 +367,12 @@ PLANS = {
     },
     "C07": {
         "mc": {"quick": [{"module": "Concurrent", "cfg": "cfg/MCConc.quick.cfg", "emit_cases": "cases.txt", "workers": 4}],
-               "thorough": [{"module": "Concurrent", "cfg": "cfg/MCConc.thorough.cfg", "emit_cases": "cases.txt", "workers": 8, "timeout": 3400}]},
+               "thorough": [{"module": "Concurrent", "cfg": "cfg/MCConc.quick.cfg", "emit_cases": "cases.txt", "workers": 4},
+                            {"module": "Concurrent", "cfg": "cfg/MCConc.thorough.cfg", "emit_cases": "cases3.txt", "workers": 8, "timeout": 3400}]},
         "drive": {"quick": [{"args": ["conc", "-cases", "{S}/cases.txt", "-n", "0", "-seed", "{seed}"]},
                             {"args": ["conc", "-n", "400", "-seed", "{seed}"], "race": True}],
-                  "thorough": [{"args": ["conc", "-cases", "{S}/cases.txt", "-exhmax", "60000", "-n", "0", "-seed", "{seed}"], "timeout": 3400},
+                  "thorough": [{"args": ["conc", "-cases", "{S}/cases.txt", "-n", "0", "-seed", "{seed}"], "timeout": 3400},
+                               {"args": ["conc", "-cases", "{S}/cases3.txt", "-exhmax", "30000", "-n", "0", "-seed", "{seed}"], "timeout": 3400},
                                {"args": ["conc", "-n", "8000", "-seed", "{seed}"], "race": True, "timeout": 3400}]},
         "judge": {"module": "JudgeConc", "cfg": "JudgeConc.cfg"},
         "replay_args": ["conc", "-n", "100", "-seed", "1"],
